@@ -181,6 +181,19 @@ func decode(v any) any {
 			}
 			return sb.String()
 		}
+		if bs, ok := x["bytes"]; ok {
+			arr, _ := bs.([]any)
+			b := make([]byte, len(arr))
+			for i, c := range arr {
+				b[i] = byte(int(c.(float64)))
+			}
+			return string(b)
+		}
+		if x["t"] == "bool" {
+			if b, ok := x["b"].(bool); ok {
+				return b
+			}
+		}
 		if m, ok := x["m"]; ok {
 			e, _ := x["e"].(float64)
 			return m.(float64) / math.Pow(2, e)
